@@ -28,6 +28,9 @@ import (
 //   direct   Context.Respond called directly (nil route / route without operation / produces argument different
 //            from the route's / a response format already stored in the request / a basic authenticator that examined
 //            the request first: the marker it leaves is compared with the model's and decides the challenge)
+//   routing  a request that matches no operation (unknown path: 404; known path, other method: 405) through the real API
+//            handler: the router hands the error to Respond with everything the description produces (top-level and
+//            per-operation produces) as offers and no route; emitted as a CDirect case with that list as argument
 //   hist     2-5 requests answered one after the other by ONE Context (one API handler) of a description with several
 //            operations: same path under different methods, different paths, operations with and without operationId,
 //            different declared success codes and produces lists, security requirements with several alternatives and
@@ -61,6 +64,12 @@ type c08In struct {
 	// handler is built from the API and AFTER that (before the request is served). Both empty = [1] before (the usual order).
 	RBefore []int `json:"r_before,omitempty"`
 	RAfter  []int `json:"r_after,omitempty"`
+	// routing only: the request matches no operation. Miss = path (Method on MissPath, a path no operation has under any
+	// method: 404) | method (Method on /x, which has an operation under another method only: 405). Global = the top-level
+	// produces of the description; Produces = those of the one operation. Data is err:404 / err:405 (what the router hands on).
+	Miss     string `json:"miss,omitempty"`
+	MissPath string `json:"miss_path,omitempty"`
+	Global   []Bs   `json:"global,omitempty"`
 	// hist only (Produces, Method, Codes, Data, Auth, Attempt, Authz, Lines are per operation / per step there)
 	Ops   []c08Op   `json:"ops,omitempty"`
 	Steps []c08Step `json:"steps,omitempty"`
@@ -134,6 +143,8 @@ func (c08) Rule() string {
 		"{no header, empty header, refused, accepted, Basic scheme without usable credentials (scheme only, not base64, no colon, bad padding, stray characters), other schemes (Bearer, Digest, ...), " +
 		"usable credentials in unusual dress (scheme case, empty user or password)} - exhaustively over a fixed table and randomly, through the handler and through a direct Respond after the authenticator ran " +
 		"(what a header yields is net/http's Request.BasicAuth, consulted per case); direct Respond calls with nil route, route without operation, foreign produces argument, pre-stored format, realm marker. " +
+		"routing errors: requests for a path no operation has (404) and for a known path under an undeclared method (405) through the real API handler, descriptions with top-level and per-operation produces lists, " +
+		"Accept headers naming a produced non-default type / the default / nothing produced / ranges, restricted to those whose negotiation does not depend on the order of the offers (the router reads them from a map) - enumerated and one random case in ten. " +
 		"Non-trivial: the answer is produced by Respond with at least two offers, or a body is written, or an error/406/401 path is taken with a negotiated type."
 }
 
@@ -223,7 +234,10 @@ func c08Doc(in c08In) string {
 	op["responses"] = resp
 	doc := map[string]any{
 		"swagger": "2.0", "info": map[string]any{"title": "t", "version": "1"},
-		"paths": map[string]any{"/x": map[string]any{strings.ToLower(in.Method): op}},
+		"paths": map[string]any{"/x": map[string]any{strings.ToLower(c08OpMethod(in)): op}},
+	}
+	if len(in.Global) > 0 {
+		doc["produces"] = bsList(in.Global)
 	}
 	if in.Auth == "basic" {
 		op["security"] = []any{map[string]any{"basic": []string{}}}
@@ -231,6 +245,73 @@ func c08Doc(in c08In) string {
 	}
 	b, _ := json.Marshal(doc)
 	return string(b)
+}
+
+// c08OpMethod: the method under which the one operation of the description is declared.
+func c08OpMethod(in c08In) string {
+	if in.Kind == "routing" && in.Miss == "method" {
+		if in.Method == "GET" {
+			return "POST"
+		}
+		return "GET"
+	}
+	return in.Method
+}
+
+// c08AllProduces: everything the description of a routing case produces (top-level and operation), each once, sorted.
+func c08AllProduces(in c08In) []Bs {
+	seen := map[Bs]bool{}
+	var out []Bs
+	for _, l := range [][]Bs{in.Global, in.Produces} {
+		for _, p := range l {
+			if !seen[p] {
+				seen[p] = true
+				out = append(out, p)
+			}
+		}
+	}
+	sort.Slice(out, func(i, j int) bool { return out[i] < out[j] })
+	return out
+}
+
+// c08OrderFree: the negotiation between the Accept lines and the offers (those that are not the API default in ANY order,
+// then the default) has the same winner whatever the order. The router takes the list from a Go map, so only such inputs
+// have one right answer.
+func c08OrderFree(lines []Bs, all []Bs, def string) bool {
+	var rest []string
+	for _, p := range all {
+		if string(p) != def {
+			rest = append(rest, string(p))
+		}
+	}
+	if len(rest) > 4 {
+		return false
+	}
+	req := httptest.NewRequest("GET", "/", nil)
+	if len(lines) > 0 {
+		req.Header["Accept"] = bsList(lines)
+	}
+	first, have, same := "", false, true
+	var perm func(k int)
+	perm = func(k int) {
+		if k == len(rest) {
+			offers := append(append([]string{}, rest...), def)
+			got := middleware.NegotiateContentType(req, offers, "")
+			if !have {
+				first, have = got, true
+			} else if got != first {
+				same = false
+			}
+			return
+		}
+		for i := k; i < len(rest); i++ {
+			rest[k], rest[i] = rest[i], rest[k]
+			perm(k + 1)
+			rest[k], rest[i] = rest[i], rest[k]
+		}
+	}
+	perm(0)
+	return same
 }
 
 func c08Data(s string) (interface{}, string) {
@@ -395,7 +476,7 @@ func (c08) Run(inAny any) any {
 			api.ServeError = c08Responder(log, id)
 		}
 		data, _ := c08Data(in.Data)
-		api.RegisterOperation(in.Method, "/x", runtime.OperationHandlerFunc(func(interface{}) (interface{}, error) {
+		api.RegisterOperation(c08OpMethod(in), "/x", runtime.OperationHandlerFunc(func(interface{}) (interface{}, error) {
 			obs.Ran = true
 			if e, ok := data.(error); ok {
 				return nil, e
@@ -424,6 +505,18 @@ func (c08) Run(inAny any) any {
 		h := ctx.APIHandler(nil)
 		for _, id := range rAfter { // the server is assembled, its error responder is (re)assigned afterwards
 			api.ServeError = c08Responder(log, id)
+		}
+		if in.Kind == "routing" {
+			target := "/x"
+			if in.Miss == "path" {
+				target = in.MissPath
+			}
+			req := httptest.NewRequest(in.Method, target, nil)
+			if len(in.Lines) > 0 {
+				req.Header["Accept"] = bsList(in.Lines)
+			}
+			h.ServeHTTP(rw, req)
+			return
 		}
 		req := httptest.NewRequest(in.Method, "/x", nil)
 		if len(in.Lines) > 0 {
@@ -849,6 +942,9 @@ func (c08) Coq(inAny any, obsAny any) string {
 			c08Codes(in.Codes), coqBytesList(bsList(in.Lines)), head, auth, c08CoqData(in.Data), coqBytes(tag),
 			coqBool(obs.Ran), c08CoqObs(obs), c08CoqRCfg(in, nil), c08Ints(obs.Invoked))
 	}
+	if in.Kind == "routing" { // Respond(everything the description produces, no route, the routing error)
+		in.Arg, in.Route = c08AllProduces(in), "nil"
+	}
 	route := "None"
 	switch in.Route {
 	case "real":
@@ -1037,6 +1133,25 @@ func (c08) Category(inAny any, obsAny any) (string, bool) {
 		}
 	} else if in.Auth == "basic" {
 		extra = "/basic-" + c08AttemptKind(in) + c08VariantLabel(in)
+	}
+	if in.Kind == "routing" {
+		extra = "/no-" + in.Miss
+		named := "/accept-names-nothing-produced"
+		for _, p := range c08AllProduces(in) {
+			base := strings.SplitN(string(p), ";", 2)[0]
+			for _, l := range in.Lines {
+				if strings.Contains(strings.ToLower(string(l)), strings.ToLower(base)) {
+					if string(p) == c08DefaultOf(in) {
+						if named == "/accept-names-nothing-produced" {
+							named = "/accept-names-default"
+						}
+					} else {
+						named = "/accept-names-produced-non-default"
+					}
+				}
+			}
+		}
+		extra += named
 	}
 	if len(in.RAfter) > 0 {
 		extra += fmt.Sprintf("/responder-b%d-a%d", len(in.RBefore), len(in.RAfter))
@@ -1392,6 +1507,7 @@ func (c08) Enumerate(tier string) []any {
 	var out []any
 	out = append(out, c08EnumerateHist()...)
 	out = append(out, c08EnumerateOrders()...)
+	out = append(out, c08EnumerateRouting()...)
 	// failed and accepted basic-auth attempts: authenticator variants x realms x credentials, through the handler and
 	// through a direct Respond of an error after the authenticator examined the request
 	n := 0
@@ -1448,6 +1564,125 @@ func (c08) Enumerate(tier string) []any {
 						out = append(out, in)
 					}
 				}
+			}
+		}
+	}
+	return out
+}
+
+// c08DefaultOf: the API default produces of a case.
+func c08DefaultOf(in c08In) string {
+	switch in.Defaults {
+	case "none":
+		return ""
+	case "custom":
+		return string(in.Default)
+	}
+	return runtime.JSONMime
+}
+
+var c08MissPaths = []string{"/nowhere", "/x/y", "/", "/X", "/xx", "/y"}
+
+// c08RoutingLines: Accept lines for a routing case whose negotiation does not depend on the order of the offers.
+func c08RoutingLines(r *rand.Rand, in c08In) []Bs {
+	all := c08AllProduces(in)
+	def := c08DefaultOf(in)
+	var nonDef []string
+	for _, p := range all {
+		if string(p) != def {
+			nonDef = append(nonDef, strings.SplitN(string(p), ";", 2)[0])
+		}
+	}
+	if len(nonDef) > 0 && r.Intn(2) == 0 { // one produced type that is not the API default, alone or in front of lesser ranges
+		l := nonDef[r.Intn(len(nonDef))] + []string{"", "", ";q=0.9", "; q=0.4", ";q=1"}[r.Intn(5)]
+		l += []string{"", "", ", */*;q=0.1", ",image/png", ", application/json;q=0.2", ", text/*;q=0.05"}[r.Intn(6)]
+		if c08OrderFree([]Bs{Bs(l)}, all, def) {
+			return []Bs{Bs(l)}
+		}
+	}
+	for try := 0; try < 20; try++ {
+		if l := c08Accept(r, all); c08OrderFree(l, all, def) {
+			return l
+		}
+	}
+	return []Bs{"image/png"}
+}
+
+func c08GenRouting(r *rand.Rand) c08In {
+	in := c08In{Kind: "routing", Defaults: "json", Method: c08Methods[r.Intn(3)], Codes: []int{200}}
+	switch r.Intn(8) {
+	case 0:
+		in.Defaults = "none"
+	case 1:
+		in.Defaults = "custom"
+		in.Default = Bs([]string{"text/plain", "application/xml", "application/json; charset=utf-8", "text/csv"}[r.Intn(4)])
+	}
+	if r.Intn(2) == 0 {
+		in.Miss, in.MissPath, in.Data = "path", c08MissPaths[r.Intn(len(c08MissPaths))], "err:404"
+	} else {
+		in.Miss, in.Data = "method", "err:405"
+	}
+	for len(c08AllProduces(in)) == 0 || len(c08AllProduces(in)) > 4 {
+		in.Global, in.Produces = c08Produces(r), nil
+		if r.Intn(2) == 0 {
+			in.Produces = c08Produces(r)
+		}
+		if r.Intn(4) == 0 {
+			in.Global = nil
+		}
+	}
+	in.Register = c08Register(r, c08AllProduces(in))
+	if in.Defaults == "custom" && r.Intn(4) != 0 {
+		in.Register = append(in.Register, Bs(strings.SplitN(string(in.Default), ";", 2)[0]))
+	}
+	in.Lines = c08RoutingLines(r, in)
+	return in
+}
+
+// c08EnumerateRouting: no such path / no such method x description-wide produces sets x an Accept header naming each
+// produced type alone, nothing produced, anything, or absent (the last two only where the order of the offers is immaterial).
+func c08EnumerateRouting() []any {
+	var out []any
+	sets := []struct{ global, op []string }{
+		{[]string{"application/json", "application/xml"}, nil},
+		{[]string{"application/xml"}, nil},
+		{nil, []string{"text/plain"}},
+		{[]string{"application/json"}, []string{"text/csv"}},
+		{[]string{"application/xml", "text/plain; charset=utf-8"}, []string{"application/json", "text/csv"}},
+		{[]string{"application/json"}, nil},
+	}
+	n := 0
+	for _, miss := range []string{"path", "method"} {
+		for _, set := range sets {
+			base := c08In{Kind: "routing", Defaults: "json", Codes: []int{200}, Miss: miss, Global: toBs(set.global), Produces: toBs(set.op), Data: "err:405"}
+			if miss == "path" {
+				base.Data = "err:404"
+			}
+			all := c08AllProduces(base)
+			accepts := [][]Bs{nil, {"*/*"}, {"image/png"}, {"image/png;q=0.9, text/html"}}
+			for _, p := range all {
+				b := strings.SplitN(string(p), ";", 2)[0]
+				accepts = append(accepts, []Bs{Bs(b)}, []Bs{Bs(b + ";q=0.8, */*;q=0.1")}, []Bs{Bs("image/png, " + b + ";q=0.3")})
+				base.Register = append(base.Register, Bs(b))
+			}
+			for _, acc := range accepts {
+				if !c08OrderFree(acc, all, runtime.JSONMime) {
+					continue
+				}
+				n++
+				in := base
+				in.Lines = acc
+				in.Method = c08Methods[n%3]
+				if miss == "path" {
+					in.MissPath = c08MissPaths[n%len(c08MissPaths)]
+				}
+				if n%7 == 0 {
+					in.Defaults, in.Default = "custom", "application/xml"
+					if !c08OrderFree(acc, all, "application/xml") {
+						continue
+					}
+				}
+				out = append(out, in)
 			}
 		}
 	}
@@ -1564,6 +1799,9 @@ func (c08) Gen(r *rand.Rand, tier string, i int) any {
 func c08Gen1(r *rand.Rand, tier string, i int) c08In {
 	if i%10 == 9 {
 		return c08GenHist(r)
+	}
+	if i%10 == 4 {
+		return c08GenRouting(r)
 	}
 	in := c08In{Kind: "serve", Defaults: "json"}
 	switch r.Intn(12) {
